@@ -404,6 +404,12 @@ class Env:
             self.cls = abstract_twin(self.base.cls) if runtime == 'abstract' else self.base.cls
         self.fresh = {}
         self.n_fresh = 0
+        self._twin = None
+
+    def twin(self):
+        if self._twin is None:
+            self._twin = abstract_twin(self.base.cls)
+        return self._twin
 
     def executor(self):
         from excel2pycl import Executor
@@ -483,12 +489,18 @@ def run_history(env, hist, probes=None, want_trace=False):
     if probes is None:
         probes = default_probes(book, list(targets) + [tuple(p) for p in hist.get('probes', [])])
     for si, st in enumerate(hist['steps']):
+        if st['op'] == 'reset':
+            # the executor object is given an executed class again (the same class, or its twin on the other runtime copy):
+            # a new executed instance starts without overrides, the history starts again
+            ex.set_executed_class(class_object=env.twin() if st.get('twin') else env.cls)
+            edits, objs = {}, {}
+            continue
         if st['op'] == 'set':
             batch = []
             for ent in st['cells']:
                 t, c, r, ev = ent[:4]
                 oid = ent[4] if len(ent) > 4 else None
-                val = dec_val(ev, env.cls.EmptyCell)
+                val = dec_val(ev, type(ex.get_executed_class()).EmptyCell)
                 if oid is not None and oid in objs:
                     cell = objs[oid]                         # the caller re-uses his Cell object with a new value
                     cell.value = val
@@ -549,7 +561,7 @@ def run_history(env, hist, probes=None, want_trace=False):
         bad = {tuple(m['probe']) for m in step_mm}
         for m in step_mm:
             pr = tuple(m['probe'])
-            if pr in edits or not any(o != pr and o not in edits and book.depends(pr, o, tuple(edits)) for o in bad):
+            if pr in edits or not any(o != pr and book.depends(pr, o, tuple(edits)) for o in bad):
                 res['mismatches'].append(m)
     return res
 
@@ -572,6 +584,8 @@ def describe(book, hist, mm):
     for st in hist['steps']:
         if st['op'] == 'set':
             steps.append('set_cells[' + ', '.join(f'Cell({c[0]!r},{c[1]!r},{c[2]!r})={show(c[3])}' for c in st['cells']) + ']')
+        elif st['op'] == 'reset':
+            steps.append('set_executed_class(' + ('twin class' if st.get('twin') else 'same class') + ')')
         else:
             steps.append('get')
     if mm['probe'] is None:
@@ -926,6 +940,8 @@ CHECKS = {
     'entry_point': 'entry-point translation: core workbook with every formula cell as entry, generated workbooks with a random entry',
     'abstract_runtime': 'the cell methods of the translation on top of the importable AbstractExcelInPython',
     'views': 'the same values through get_cells and get_sheet',
+    'executor_reuse': 'one Executor object given an executed class again (same class / the twin class on the other runtime copy) '
+                      'between batches: the new executed instance starts without overrides, later batches count from there',
 }
 
 
@@ -971,6 +987,17 @@ def build_jobs(tier, seed):
             vh.append(H([SET(T, 'a1', (t, 5)), GET, SET(T, 'num', (t, ''), (book.parse('S!A2'), 8)), GET], via=via))
     jobs.append({'check': 'views', 'wb': wb, 'histories': vh[:len(vh) // 2], 'group': 'get_cells'})
     jobs.append({'check': 'views', 'wb': wb, 'histories': vh[len(vh) // 2:], 'group': 'get_sheet'})
+    # executor re-use
+    rh = []
+    for n, (addr, kl) in enumerate(CORE_TARGETS):
+        t = book.parse(addr)
+        for twin in (False, True):
+            rs = {'op': 'reset', 'twin': twin}
+            rh.append(H([SET(T, 'a1', (t, 5)), GET, rs, GET, SET(T, 'num', (book.parse('S!A2'), 8)), GET]))
+            rh.append(H([SET(T, 'num', (t, 'x')), rs, SET(T, 'a1', (t, 0)), GET, rs, GET]))
+            rh.append(H([SET(T, 'a1', (t, 5), (book.parse('S!A1'), 9)), rs, GET, SET(T, 'a1', (book.parse('S!D3'), 1)), GET]))
+    jobs.append({'check': 'executor_reuse', 'wb': wb, 'histories': rh[:len(rh) // 2], 'group': 'a'})
+    jobs.append({'check': 'executor_reuse', 'wb': wb, 'histories': rh[len(rh) // 2:], 'group': 'b'})
     # random histories on the core workbook
     core_targets = [book.parse(a) for a, _ in CORE_TARGETS] + list(book.cells)
     n_rand = 2000 if thorough else 160
@@ -1121,6 +1148,8 @@ def run(tier='quick', seed=0):
                        f'{per_check["entry_point"]["jobs"] - len(book.areas)} generated workbooks with a random entry',
         'abstract_runtime': f'{per_check["abstract_runtime"]["histories"]} histories (25 targets x 3 rewrites + random) on the abstract twin',
         'views': '24 targets x 2 batches, read through get_cells and through get_sheet (by index and by title)',
+        'executor_reuse': '25 targets x {same class, twin class} x 3 history shapes (override / set_executed_class / query, with and '
+                          'without a query before it, overrides after it)',
     }
     for name in CHECKS:
         pc = per_check[name]
@@ -1134,7 +1163,7 @@ def run(tier='quick', seed=0):
                     'the value without overrides or the cell is overridden. Under entry-point translation cells outside the slice of the '
                     'edited workbook are skipped.',
             'exhaustive': name in ('constant_cells', 'formula_cells', 'falsy_values', 'blank_cells_in_areas', 'beyond_used_range',
-                                   'addressing', 'views'),
+                                   'addressing', 'views', 'executor_reuse'),
             'evaluations': pc['evals'], 'distinct_nontrivial': pc['nontrivial'], 'failures': pc['fails'][:25],
             'samples': pc['samples'][:3], 'seconds': round(pc['seconds'] / 16.0, 2)})
     ar_f, ar_e = [], 0
